@@ -174,6 +174,69 @@ pub fn drive(vectors: Option<&str>, corpus: &str, seed: u64, out: &str, thorough
       }
     }
   }
+  // error recovery builds zero-width nodes that HAVE children (a statement made of one MISSING token): small texts
+  // whose whole tree is traversed from the root.  A fixed list, plus statements of the corpus files truncated after
+  // one of their tokens; those whose tree has such a node are kept first.
+  let mut n_recovery = 0;
+  let fixed: Vec<(SupportLang, &str)> = vec![
+    (SupportLang::C, "if (a)"), (SupportLang::Cpp, "if (a)"), (SupportLang::CSharp, "if (a)"), (SupportLang::Bash, "$()"),
+    (SupportLang::Css, "{}"), (SupportLang::C, "int f() { if (a) }"), (SupportLang::Java, "class A { void f() { if (a) } }"),
+    (SupportLang::JavaScript, "if (a)"), (SupportLang::Go, "func f() { if a }"), (SupportLang::Rust, "fn f() { let x = ; }"),
+  ];
+  for (i, (l, src)) in fixed.iter().enumerate() {
+    if let Some(mut r) = record_tree(&format!("recovery{i}"), *l, "<recovery>", src, &mut rng, 40, 2000) {
+      r["src"] = json!(src);
+      w.put(&r);
+      n_recovery += 1;
+    }
+  }
+  fn has_hollow(n: &tree_sitter::Node) -> bool {
+    (n.start_byte() == n.end_byte() && n.child_count() > 0) || (0..n.child_count()).any(|i| n.child(i).map(|c| has_hollow(&c)).unwrap_or(false))
+  }
+  for (l, path, text) in util::corpus(corpus) {
+    if !thorough && !path.contains("/a.") {
+      continue;
+    }
+    let g = l.ast_grep(&text);
+    let sites: Vec<N> = all_nodes(&g).into_iter().filter(|n| n.is_named() && n.parent().is_some() && {
+      let c = proj::count_nodes(&n.get_ts_node());
+      (4..=60).contains(&c)
+    }).collect();
+    if sites.is_empty() {
+      continue;
+    }
+    let mut hollow: Vec<String> = vec![];
+    let mut other: Vec<String> = vec![];
+    for _ in 0..(if thorough { 40 } else { 12 }) {
+      let site = rng.pick(&sites).clone();
+      let base = site.range().start;
+      let toks: Vec<usize> = site.dfs().filter(|n| n.is_leaf() && !n.range().is_empty()).map(|n| n.range().end - base).collect();
+      if toks.len() < 2 {
+        continue;
+      }
+      let cut = toks[rng.below(toks.len() - 1)];
+      let t = site.text();
+      if !t.is_char_boundary(cut) {
+        continue;
+      }
+      let src = t[..cut].to_string();
+      let g2 = l.ast_grep(&src);
+      let root = g2.root().get_ts_node();
+      if has_hollow(&root) {
+        hollow.push(src);
+      } else if root.has_error() {
+        other.push(src);
+      }
+    }
+    hollow.dedup();
+    for (k, src) in hollow.iter().take(3).chain(other.iter().take(1)).enumerate() {
+      if let Some(mut r) = record_tree(&format!("{path}#trunc{k}"), l, &path, src, &mut rng, 40, 2000) {
+        r["src"] = json!(src);
+        w.put(&r);
+        n_recovery += 1;
+      }
+    }
+  }
   let n = w.finish();
-  util::summary(json!({"records": n, "from_vectors": n_vec, "from_corpus": n_corpus, "languages": langs}));
+  util::summary(json!({"records": n, "from_vectors": n_vec, "from_corpus": n_corpus, "error_recovery_texts": n_recovery, "languages": langs}));
 }
